@@ -5,6 +5,7 @@ import (
 	"errors"
 	"io"
 	"net"
+	"os"
 	"sync"
 	"syscall"
 	"time"
@@ -219,12 +220,34 @@ func (c *BConn) Send(p []byte) error {
 func (c *BConn) Close() { c.C.Close() }
 
 // ClosedPort returns a loopback port on which nothing listens.
+var closedPortState struct {
+	mu   sync.Mutex
+	next int
+}
+
+// ClosedPort returns a port of 127.0.0.1 on which nothing listens and nothing will: it is taken from below the
+// kernel's ephemeral range (the listeners of this harness get theirs from that range), and handed out once per process.
 func ClosedPort() int {
-	l, err := net.Listen("tcp4", "127.0.0.1:0")
-	if err != nil {
-		return 1
+	closedPortState.mu.Lock()
+	defer closedPortState.mu.Unlock()
+	if closedPortState.next == 0 {
+		closedPortState.next = 6000 + (os.Getpid()*31)%5000
 	}
-	p := l.Addr().(*net.TCPAddr).Port
-	l.Close()
-	return p
+	for i := 0; i < 6000; i++ {
+		closedPortState.next++
+		if closedPortState.next >= 12000 {
+			closedPortState.next = 6000
+		}
+		p := closedPortState.next
+		l, err := net.Listen("tcp4", fmt.Sprintf("127.0.0.1:%d", p))
+		if err != nil {
+			continue
+		}
+		l.Close()
+		if l2, err := net.Listen("tcp4", fmt.Sprintf("127.0.0.2:%d", p)); err == nil {
+			l2.Close()
+			return p
+		}
+	}
+	return 1
 }
